@@ -124,6 +124,30 @@ def record_validate(v, wd, tier, prop):
     log(f"[{prop}] Trace_Runtime: {acc} recorded random programs accepted")
 
 
+def time_cases(v, wd, tier):
+    """SimTime arithmetic (Time.tla): the case table evaluated by TLC, compared with des::time::SimTime under additive embeddings."""
+    n = 4 if tier == "quick" else 7
+    out = os.path.join(wd, "time_cases.txt")
+    g = tlc("Gen_Time", f"CONSTANTS N = {n}\nSPECIFICATION Spec\nINVARIANTS Laws Emit\nCHECK_DEADLOCK FALSE\n", wd, printed_to=out, workers=2)
+    v.add_tlc("Time: SimTime arithmetic laws and case table", g, f"N = {n}")
+    if g.violation:
+        v.spec_violation("Time", g)
+        return
+    outs = vlib.run_vh_parallel([["rt", "time", out]])
+    tot = vlib.collect(v, outs, "rt", "evaluating SimTime arithmetic")
+    v.cov["traces_validated_against_impl"] += int(tot.get("replays", 0))
+    v.cov["evaluations"] += int(tot.get("checks", 0))
+    v.cov["simtime_cases"] = int(tot.get("replays", 0))
+    seen = set()
+    for m in tot.get("mismatches", []):
+        f = m.get("field")
+        if f in seen:
+            continue
+        seen.add(f)
+        v.add_violation(f"{f}: expected {m.get('expected')} got {m.get('got')} for {json.dumps(m.get('case'))} with a tick of {m.get('unit_ns')} ns",
+                        m, {"suite": "rt", "field": f, "kind": "time"})
+
+
 def c02(tier):
     v = Verdict("C02", tier)
     vlib.build_harness()
@@ -140,6 +164,7 @@ def c02(tier):
         gen_replay(v, wd, tier, "C02", "MaxT = 3 MaxId = 3 MaxSteps = 2 MaxExt = 3\n Menu <- MenuPast Seed = TRUE Starts = {0, 2} Limits <- LimitsNone HeapInit = FALSE", 8,
                    "external adds while paused", tag="g2")
     record_validate(v, wd, tier, "C02")
+    time_cases(v, wd, tier)
     v.cov["rule"] = ("every behaviour of Runtime.tla in the bound (program = handler follow-up lists chosen by TLC, external adds at "
                      "past/present/future times, start times) replayed on des::runtime::Runtime under a grid of cqueue options and "
                      "time embeddings; non-trivial = has a tie, several steps, or stops with events remaining")
@@ -200,6 +225,13 @@ def _replay(prop, path):
     with open(path) as fh:
         viol = json.load(fh)
     beh = viol.get("detail", {}).get("behaviour")
+    if "case" in viol.get("detail", {}):
+        p = os.path.join(wd, "case.txt")
+        with open(p, "w") as fh:
+            fh.write(json.dumps([viol["detail"]["case"]]) + "\n")
+        out = vlib.run_vh_parallel([["rt", "time", p]])[0]
+        log(json.dumps(out)[:3000])
+        return 1 if out.get("crash") or out.get("mismatch_count") else 0
     if beh is None:
         log("replay file carries no behaviour (spec-level violation): re-run the check instead")
         return 2
